@@ -56,6 +56,14 @@ def run_one(prop, base_seed, index, tier, mask, want_raw=False, want_digest=Fals
         for hk, hv in sorted((verdict.get("hits") or {}).items()):
             case["meta"].setdefault("hits", {})
             case["meta"]["hits"][hk] = case["meta"]["hits"].get(hk, 0) + hv
+        fps = set()
+        sres = (verdict.get("sut") or {})
+        for rr in (sres.get("results") or []):
+            if isinstance(rr, dict) and "audit" in rr:
+                fps.add(hashlib.sha256(json.dumps(rr["audit"], sort_keys=True).encode()).hexdigest()[:12])
+        if sres.get("audit"):
+            fps.add(hashlib.sha256(json.dumps(sres["audit"], sort_keys=True).encode()).hexdigest()[:12])
+        out["state_fps"] = sorted(fps)
         out.update({"nops": len(case["ops"]), "meta": case["meta"], "violation": None,
                     "checked": verdict.get("checked", len(case["ops"]))})
         if want_digest:
